@@ -12,8 +12,26 @@ TRUSTED = [
 ASSUMPTIONS = ["agents do not mutate an order after acceptance", "prices are finite non-NaN doubles"]
 
 
+def _sims(ctx, n, res):
+    """priority inside whole simulations (high-frequency agents, order-rewriting events)"""
+    import runner_props
+    import runner_checks as rc
+    checks = 0
+    for cfg, seed in runner_props.gen_priority_cases(ctx, n):
+        r = rc.run_sim(cfg, seed)
+        vs, c = runner_props.mon_C02_run(r, cfg, seed)
+        checks += c
+        for v in vs:
+            if not any(x["signature"] == v["signature"] for x in res["violations"]):
+                res["violations"].append(v)
+    res["monitor_checks"] += checks
+    res.setdefault("distribution", {})["simulation_priority_checks"] = checks
+    return res
+
+
 def run(ctx, model_available=True):
-    return market_checks.run_market_property(ctx, PROP, model_available=model_available)
+    res = market_checks.run_market_property(ctx, PROP, model_available=model_available)
+    return _sims(ctx, 12 * (ctx.scale if ctx.tier == "thorough" else 1), res)
 
 
 def search(ctx, res):
@@ -21,10 +39,14 @@ def search(ctx, res):
     ctx2 = type(ctx)(ctx.prop, ctx.tier, ctx.seed + 1)
     ctx2.scale = ctx.scale
     r = market_checks.run_market_property(ctx2, PROP, n_quick=3000, model_available=False, sweep_share=0.6)
-    res["search_note"] = "extended search: %d further histories, %d monitor checks, no failing input" % (
+    r = _sims(ctx2, 150, r)
+    res["search_note"] = "extended search: %d further histories and 150 simulations, %d monitor checks, no failing input" % (
         r["evaluations"], r["monitor_checks"])
     return r["violations"]
 
 
 def replay(obj):
+    if obj.get("input", {}).get("kind") == "simulation" or "config" in obj.get("input", {}):
+        import runner_props
+        return runner_props.replay_runner(PROP, obj, monitor=runner_props.mon_C02_run)
     return market_checks.replay_market(PROP, obj)
